@@ -217,7 +217,7 @@ impl BuiltInFunctionList {
         }
     }
 
-    pub(crate) fn _string_split(arguments: Vec<DataType>, lists: &mut Vec<Vec<DataType>>) -> Result<DataType, String> {
+    pub(crate) fn _string_split(arguments: Vec<DataType>) -> Result<Vec<String>, String> {
         if arguments.len() == 2 {
             let string = arguments[0].clone();
             let split_by = arguments[1].clone();
@@ -231,10 +231,10 @@ impl BuiltInFunctionList {
                         splitted_string.remove(0);
                         splitted_string.remove(splitted_string.len() - 1);
                     }
-                    let splitted_string: Vec<DataType> = splitted_string.iter()
-                        .map(|s| DataType::String(String::from(s.clone()))).collect();
-                    lists.push(splitted_string);
-                    return Ok(DataType::List(lists.len() - 1));
+                    // Interpreter allocates the list, so that gc can count and re-use it
+                    let splitted_string: Vec<String> = splitted_string.iter()
+                        .map(|s| String::from(*s)).collect();
+                    return Ok(splitted_string);
                 },
                 _ => return Err(format!("_স্ট্রিং-স্প্লিট()); functions arguments must be string")),
             }
